@@ -35,6 +35,7 @@ def use_repo():
             if not f.startswith(REPO):
                 del sys.modules[name]
     import suds  # noqa
+    import suds.client  # noqa  (loads suds.metrics, suds.sax.parser, ... as a client would)
     if not os.path.abspath(suds.__file__).startswith(os.path.abspath(REPO)):
         raise RuntimeError("suds imported from %s, not from %s" % (suds.__file__, REPO))
 
